@@ -40,6 +40,10 @@ NOTES = [
     "round(x, n), format(x, spec), f-strings, 3-argument pow, sum/sorted and the replacement len() have no family "
     "theorem of their own beyond the generated flags; they are sampled by the search",
     "exception classes are not compared (the property only says the proxied operation fails too)",
+    "the forwarding plans are derived from what each SandboxResult method does: a path-wise symbolic execution of "
+    "pedal/sandbox/result.py (helpers, decorators, factories, base classes inlined; undecidable conditions fork) "
+    "cross-checked against the real method called on instrumented operands (harness/proxy_probe.py); a method that "
+    "neither source establishes, or on which they disagree, is `opaque` and the gen_* theorems fail",
 ]
 
 
